@@ -23,6 +23,15 @@ import (
 //go:embed baseline_funcs.txt
 var baselineFuncs string
 
+// transparent lists baseline helpers that the rules deliberately look through: they are absorbed into
+// their callers like glue, so that a tree that calls the helper and a tree in which a maintainer has
+// inlined it by hand present the same shape to the rules (which are phrased on the callers).
+var transparent = map[string]bool{
+	"(*go.amzn.com/lambda/core.InternalAgent).subscribeUnsafe": true,
+	"(*go.amzn.com/lambda/core.ExternalAgent).subscribeUnsafe": true,
+	"(*go.amzn.com/lambda/rapidcore/env.Environment).mergeCustomerEnvironmentVariables": true,
+}
+
 var baselineSet = func() map[string]bool {
 	m := map[string]bool{}
 	for _, l := range strings.Split(baselineFuncs, "\n") {
@@ -57,7 +66,7 @@ func normalise(prog *ssa.Program) (map[*ssa.Function]bool, *ssa.VerifNorm, []str
 	fns := TopLevelSourceFuncs(prog)
 	glue := map[*ssa.Function]bool{}
 	for _, fn := range fns {
-		if !baselineSet[fn.String()] && fn.Name() != "init" && !strings.HasPrefix(fn.Name(), "init#") && fn.Name() != "main" {
+		if (!baselineSet[fn.String()] || transparent[fn.String()]) && fn.Name() != "init" && !strings.HasPrefix(fn.Name(), "init#") && fn.Name() != "main" {
 			glue[fn] = true
 		}
 	}
